@@ -184,6 +184,7 @@ def run(repo, rep, tier):
     from .c13 import adapter_keys_agree
     adapter_keys_agree(repo, rep, 'C04.R11', lambda op: True, 100)
     unembedding_by_attribute_only(repo, rep)
+    path_attached_after_properties(repo, rep)
     r1 = rep.rule('C04.R1', 'client IPARAMVALUE names = keys read by the '
                   'server-side adapter')
     r2 = rep.rule('C04.R2', 'None is omitted, everything else is sent')
@@ -1056,3 +1057,63 @@ def unembedding_by_attribute_only(repo, rep):
     if n < 3:
         raise AnalysisError('C04.R12: only %d parse_embeddedObject() call '
                             'sites' % n)
+
+
+def path_attached_after_properties(repo, rep):
+    """C04.R13: the decoder attaches the decoded instance path to an
+    instance after it has filled in the properties.  CIMInstance.__setitem__
+    still propagates the value of a key property into the keybinding of the
+    same name of the instance's path (deprecated behaviour): an instance
+    that already carries its path while `inst[name] = prop` runs gets its
+    keybindings overwritten by the property values, so the server sees
+    another path than the one the client sent (VALUE.NAMEDINSTANCE of
+    ModifyInstance) - another instance is modified, or NOT_FOUND instead of
+    INVALID_PARAMETER."""
+    from ..cfg import CFG
+    r13 = rep.rule('C04.R13', 'decoded instances get their path after their '
+                   'properties')
+    tp = repo.cls('pywbem/_tupleparse.py', 'TupleParser')
+    n = 0
+    for name, f in sorted(tp.methods.items()):
+        built = {}
+        for a in walk_no_nested(f.node):
+            if isinstance(a, ast.Assign) and len(a.targets) == 1 and \
+                    isinstance(a.targets[0], ast.Name) and \
+                    isinstance(a.value, ast.Call) and \
+                    dotted(a.value.func) == 'CIMInstance':
+                built[a.targets[0].id] = a
+        if not built:
+            continue
+        cfg = CFG(f.node)
+        for v, ctor in sorted(built.items()):
+            n += 1
+            r13.sites += 1
+            r13.functions.add(f.fq)
+            has_path = any(k.arg == 'path' and not (
+                isinstance(k.value, ast.Constant) and k.value.value is None)
+                for k in ctor.value.keywords) or len(ctor.value.args) >= 4
+            path_sets = [ctor] if has_path else []
+            path_sets += [s_ for s_ in cfg.stmts()
+                          if isinstance(s_, ast.Assign) and
+                          norm(s_.targets[0]) == v + '.path']
+            items = [s_ for s_ in cfg.stmts()
+                     if isinstance(s_, ast.Assign) and
+                     isinstance(s_.targets[0], ast.Subscript) and
+                     norm(s_.targets[0].value) == v]
+            bad = [(ps, it) for ps in path_sets for it in items
+                   if ps is not it and it in cfg.reachable(ps)]
+            r13.ob(not bad, '%s|%s' % (name, v),
+                   {'path_set_by': [norm(x, 50) for x in path_sets],
+                    'item_stores': len(items)})
+            for ps, it in bad[:1]:
+                rep.finding(r13, f.qualname, norm(ps, 70),
+                            'path-before-properties',
+                            'pywbem/_tupleparse.py', ps.lineno,
+                            'the instance carries its path while %s runs: '
+                            'CIMInstance.__setitem__ overwrites the '
+                            'keybindings of that path with the key property '
+                            'values, so the decoded path is not the path '
+                            'that was sent' % norm(it, 40))
+    if n < 1:
+        raise AnalysisError('C04.R13: no CIMInstance construction in the '
+                            'tuple parser')
